@@ -91,8 +91,8 @@ class TxMonitor {
         // AUTO-SYN: only with SYN generation enabled and after silence of at least the generation interval
         autoSyns++;
         int64_t silence = (e.t - SYM) - (i > 0 ? log[i - 1].t : 0);
-        // generation interval: 10 ms * master number (>= 1) + 51 ms until the host has become the generator, 40 ms afterwards
-        int64_t need = hostIsGenerator ? 40 * MS : 61 * MS;
+        // generation interval: 10 ms * master number of the own address + 51 ms until the host has become the generator, 40 ms afterwards
+        int64_t need = hostIsGenerator ? 40 * MS : (int64_t)(10 * specMasterNumber(cfg.own) + 51) * MS;
         if (!cfg.generateSyn) add("c03-autosyn-not-enabled", ctx(log, i));
         else if (silence < need - 2 * MS) add("c03-autosyn-too-early", "silence " + std::to_string(silence / MS) + " ms (needs " + std::to_string(need / MS) + ") before " + ctx(log, i));
         if (e.b == 0xAA) {        // the SYN made it onto the bus: it counts like any other SYN
